@@ -232,6 +232,8 @@ class _Run:
 
     async def client_task(self, ti: int, world, n_calls: int):
         t = self.tape
+        share_stubs = (t.draw(3, "share-stubs") == 2) and not self.faulted
+        shared: Dict[Any, Any] = {}
         for _ in range(n_calls):
             await self.pause("cli-pause")
             case, sd, stub_cls, overridden = t.choice(world["services"], "service")
@@ -284,18 +286,35 @@ class _Run:
                 else:
                     self.no_md_routes.add(md.route)
             c.cfg = cfg
-            mk_md = (lambda level: {"x-level": level, f"x-{level}-only": "1", "x-call": c.call_id})
+            mk_md = (lambda level: {"x-level": level, f"x-{level}-only": "1", "x-call": c.call_id,
+                                    "x-blob-bin": b"\x00\xff" + level.encode()})
             def form(d):
                 if d is None:
                     return None
                 return d if cfg["md_form"] == 0 else list(d.items())
-            stub = stub_cls(
-                world["channel"],
-                timeout=cfg["stub_timeout"],
-                deadline=None if cfg["stub_deadline"] is None else Deadline.from_timeout(cfg["stub_deadline"]),
-                metadata=form(mk_md("stub") if cfg["stub_md"] else None),
-            )
-            c.stub_t = self.loop.time()
+            key = (ti, sd.package, sd.name)
+            if share_stubs and key in shared:
+                # one stub object serves several calls of this task: its stub-level values were drawn once
+                stub, c.stub_t, scfg = shared[key]
+                cfg["stub_timeout"], cfg["stub_deadline"], cfg["stub_md"] = scfg
+                self.stats["probe:stub-object-reused-for-another-call"] += 1
+            else:
+                if share_stubs:
+                    cfg["stub_md"] = False       # a shared stub cannot carry a per-call id
+                stub = stub_cls(
+                    world["channel"],
+                    timeout=cfg["stub_timeout"],
+                    deadline=None if cfg["stub_deadline"] is None else Deadline.from_timeout(cfg["stub_deadline"]),
+                    metadata=form(mk_md("stub") if cfg["stub_md"] else None),
+                )
+                c.stub_t = self.loop.time()
+                if share_stubs:
+                    shared[key] = (stub, c.stub_t, (cfg["stub_timeout"], cfg["stub_deadline"], False))
+            if share_stubs and not cfg["call_md"] and not cfg["call_md_empty"]:
+                if md.route in self.no_md_routes:
+                    cfg["call_md"] = True
+                else:
+                    self.no_md_routes.add(md.route)
             await self.pause("stub-to-call-pause")
             kwargs = dict(
                 timeout=cfg["call_timeout"],
@@ -691,6 +710,9 @@ class _Run:
                 other = "stub" if eff_md == "call" else "call"
                 if m.get("x-level") != eff_md or f"x-{other}-only" in m or f"x-{eff_md}-only" not in m:
                     problems.append(f"metadata {m}, expected the {eff_md}-level one")
+                    continue
+                if m.get("x-blob-bin") != b"\x00\xff" + eff_md.encode():
+                    problems.append(f"binary metadata value {m.get('x-blob-bin')!r} differs from what the {eff_md} level set")
                     continue
             r = e["remaining"]
             if exp_remaining is None:
